@@ -107,6 +107,8 @@ def _fix_entries(x, entries):
     for i in range(len(x.A)):
         if entries == 'real':
             x.A[i] = x.A[i].real.copy()
+        elif entries == 'int':
+            x.A[i] = np.round(3 * np.sqrt(x.A[i].size) * x.A[i].real).astype(int)
     return x
 
 
